@@ -86,10 +86,14 @@ const (
 	StratInterface
 	StratAny
 	StratAnyWrapped
+	// StratMixed mixes strategies inside one graph: the Go types listed in
+	// Query.Raw are handed to ggql as they are (bound by reflection), all other
+	// objects are wrapped in an INode (ggql.Resolver).
+	StratMixed
 )
 
 func (s Strategy) String() string {
-	return [...]string{"reflection", "interface", "any", "any-with-positions"}[s]
+	return [...]string{"reflection", "interface", "any", "any-with-positions", "mixed"}[s]
 }
 
 // FaultPlan makes chosen resolver invocations fail.
@@ -256,6 +260,11 @@ type Query struct {
 	// UseListResolver makes the interface strategy return ListResolver values
 	// instead of []interface{}.
 	UseListResolver bool
+	// Raw (mixed roots only) names the Go types that are not wrapped.
+	Raw map[string]bool
+	// RawSlices (mixed roots only) hands typed slices of raw element types to
+	// ggql as they are instead of converting them to []interface{}.
+	RawSlices bool
 
 	tr *Tracker
 }
@@ -301,6 +310,16 @@ type Cell struct {
 	Label string
 }
 
+// FilterIn is the Go struct registered for the input type Filter on reflection
+// and mixed roots (Input.CoerceIn then builds one by reflection).
+type FilterIn struct {
+	MinAge int
+	Names  []string
+	Size   string
+	Tag    string
+	Limit  int
+}
+
 // ZooSchema is the schema-level object for reflection roots.
 type ZooSchema struct {
 	Query    *Query
@@ -318,6 +337,36 @@ func (q *Query) Keeper(name string) (*Keeper, error) {
 		}
 	}
 	return nil, nil
+}
+
+// Find is the reflection method behind Query.find.
+func (q *Query) Find(filter *FilterIn) ([]*Keeper, error) {
+	var a map[string]interface{}
+	if filter != nil {
+		a = map[string]interface{}{"filter": filterMap(filter)}
+	}
+	if _, err := q.tr.enter("Query", "find", a, ""); err != nil {
+		return nil, err
+	}
+	min := 0
+	if filter != nil {
+		min = filter.MinAge
+	}
+	var out []*Keeper
+	for _, k := range q.Keepers {
+		if k != nil && k.Age >= min {
+			out = append(out, k)
+		}
+	}
+	return out, nil
+}
+
+func filterMap(f *FilterIn) map[string]interface{} {
+	names := make([]interface{}, len(f.Names))
+	for i, n := range f.Names {
+		names[i] = n
+	}
+	return map[string]interface{}{"minAge": f.MinAge, "names": names, "size": f.Size, "tag": f.Tag, "limit": f.Limit}
 }
 
 // Echo is the reflection method behind Query.echo.
@@ -417,6 +466,22 @@ func GenZoo(t *tape.Tape) *Query {
 	return q
 }
 
+// DrawMixed draws the raw / wrapped assignment of a mixed root.
+func DrawMixed(t *tape.Tape, q *Query) {
+	q.Raw = map[string]bool{}
+	for _, n := range []string{"Query", "Keeper", "Dog", "Bird", "Cell"} {
+		if t.Bool(2, 5) {
+			q.Raw[n] = true
+		}
+	}
+	if t.Bool(1, 4) {
+		// all union members raw under a wrapped query root: union dispatch by Go type
+		q.Raw = map[string]bool{"Keeper": true, "Dog": true, "Bird": true, "Cell": true}
+	}
+	q.RawSlices = t.Bool(1, 2)
+	q.UseListResolver = t.Bool(1, 3)
+}
+
 // zooField is the harness-side field accessor behind the interface and any
 // strategies: one place that knows the neutral data.
 func zooField(q *Query, obj interface{}, name string, args map[string]interface{}) (interface{}, error) {
@@ -477,6 +542,9 @@ func zooField(q *Query, obj interface{}, name string, args map[string]interface{
 			return o.Boss, nil
 		case "find":
 			min := 0
+			if fi, _ := args["filter"].(*FilterIn); fi != nil {
+				min = fi.MinAge
+			}
 			if f, _ := args["filter"].(map[string]interface{}); f != nil {
 				switch m := f["minAge"].(type) {
 				case int32:
@@ -604,12 +672,18 @@ func wrapI(q *Query, v interface{}, path []interface{}, useList bool) interface{
 	switch rv.Kind() {
 	case reflect.Ptr:
 		if rv.Elem().Kind() == reflect.Struct {
+			if q.Raw[rv.Elem().Type().Name()] {
+				return v // mixed root: this type is bound by reflection
+			}
 			return &INode{q: q, v: v, path: path}
 		}
 	case reflect.Slice:
 		et := rv.Type().Elem()
 		if et.Kind() == reflect.String || et.Kind() == reflect.Int {
 			return v // typed scalar slices are handled by ggql itself
+		}
+		if q.RawSlices && et.Kind() == reflect.Ptr && q.Raw[et.Elem().Name()] {
+			return v // typed slice of a raw type: ggql's reflect slice path
 		}
 		if useList {
 			return &IList{q: q, rv: rv, path: path}
@@ -819,7 +893,7 @@ func NewZoo(q *Query, strat Strategy) (*Zoo, error) {
 	switch strat {
 	case StratReflect:
 		z.Root = ggql.NewRoot(sch)
-	case StratInterface:
+	case StratInterface, StratMixed:
 		z.Root = ggql.NewRoot(&INode{q: q, v: sch, path: []interface{}{}})
 	case StratAny:
 		z.Root = ggql.NewRoot(sch)
@@ -838,7 +912,10 @@ func NewZoo(q *Query, strat Strategy) (*Zoo, error) {
 	if err := z.Root.ParseString(sdl); err != nil {
 		return nil, err
 	}
-	if strat == StratReflect {
+	if strat == StratReflect || strat == StratMixed {
+		if err := z.Root.RegisterType(&FilterIn{}, "Filter"); err != nil {
+			return nil, err
+		}
 		if err := z.Root.RegisterType(&Dog{}, "Dog"); err != nil {
 			return nil, err
 		}
